@@ -33,7 +33,9 @@ def extra(ctx, case, out, code, desc):
 
 
 def run(ctx):
-    kept, codes = sc.run_property(ctx, ID, FAIL, MISMATCH, extra=extra)
+    # (round Y/Z) a WBS without tasks: the result is still a WBS of its own
+    empty = [sc.C('fwd', []), sc.C('bwd', []), sc.C('bwd', [], balance=False), sc.C('fwd', [], balance=False)]
+    kept, codes = sc.run_property(ctx, ID, FAIL, MISMATCH, extra=extra, extra_cases=empty)
     repeats = clock_pairs = snapshots = 0
     for (case, out), code in zip(kept, codes):
         if case.get('offgrid') or code & sc.BITS['illformed']:
